@@ -1073,12 +1073,21 @@ impl<'ir, 'eng> FuelAsmBuilder<'ir, 'eng> {
         false_block: &BranchToWithArgs,
     ) -> Result<(), CompileError> {
         if true_block.block == false_block.block && true_block.block.num_args(self.context) > 0 {
-            return Err(CompileError::Internal(
-                "Cannot compile CBR with both branches going to same dest block",
-                self.md_mgr
-                    .val_to_span(self.context, *cond_value)
-                    .unwrap_or_else(Span::dummy),
-            ));
+            // Both branches go to the same block, but with (potentially) different arguments.
+            // The moves of the two argument lists target the same registers, so they cannot
+            // both be done before the jump. Select the moves with the condition instead.
+            let cond_reg = self.value_to_register(cond_value)?;
+            let dest_label = self.block_to_label(&true_block.block);
+            let true_args_label = self.reg_seqr.get_label();
+            self.cur_bytecode
+                .push(Op::jump_if_not_zero(cond_reg, true_args_label));
+            self.compile_branch_to_phi_value(false_block)?;
+            self.cur_bytecode.push(Op::jump_to_label(dest_label));
+            self.cur_bytecode
+                .push(Op::unowned_jump_label(true_args_label));
+            self.compile_branch_to_phi_value(true_block)?;
+            self.cur_bytecode.push(Op::jump_to_label(dest_label));
+            return Ok(());
         }
         self.compile_branch_to_phi_value(true_block)?;
         self.compile_branch_to_phi_value(false_block)?;
